@@ -171,12 +171,16 @@ PROPS = {
     "C06": {
         "module": "HctlProofs.Props.C06",
         "theorems": ["Hctl.C06.build_wf", "Hctl.C06.build_str", "Hctl.C06.mkAtom_wf", "Hctl.C06.mkUnary_wf", "Hctl.C06.mkBinary_wf",
-                     "Hctl.C06.mkHybrid_wf", "Hctl.C06.canonToks_derives", "Hctl.C06.parse_canonToks"],
+                     "Hctl.C06.mkHybrid_wf", "Hctl.C06.canonToks_derives", "Hctl.C06.parse_canonToks",
+                     "Hctl.Lex.tokenize_render", "Hctl.C06.print_parse_roundtrip", "Hctl.C06.print_parse_roundtrip_plain",
+                     "Hctl.C06.render_injective", "Hctl.C06.asciiClass_ok"],
         "ks": ["k3", "k2", "k4"],
         "spec_tied": ["k3"],
         "full": False,
-        "not_proved": "the lexical half of the round trip (tokenize (render t) = canonToks t) is not proved; it is exercised by the "
-                      "round-trip oracle on constructed / parsed / preprocessed trees (K3, K2, K4) and by K1",
+        "not_proved": "the round trip is proved for every tree over valid identifiers (TreeOK, PropNamesOK) under character-class facts "
+                      "(CharsOK: the 17 special characters are neither name characters nor white space except the blank, the letters of "
+                      "the keywords are alphanumeric; an ASCII instance is proved); that parser output and preprocessing output satisfy "
+                      "TreeOK is not yet proved in Lean and is exercised by the round-trip oracle (K3, K2, K4)",
         "rule": "K3: all trees with <= 4 (thorough 5) nodes over all node kinds + random deep trees over 18 identifier shapes; every "
                 "node's stored text/height vs the independent renderer; oracle: to_string -> parse_extended_formula -> equality",
         "assumptions": ["identifiers are valid names that do not lex as operators/constants (PropNamesOK and the harness' name pool)"],
@@ -361,7 +365,8 @@ _FRONT_NOTE = ("Trusted: Lean kernel, axioms {propext, Classical.choice, Quot.so
                "beyond on every run.")
 MANIFEST_TEXT.update({
     "C06": {"text": "Lean theorems: every node built through the constructors stores exactly the canonical rendering and height of its "
-                    "structure; the canonical token list of any tree derives (hence parses back to) the tree. Correspondence: stored "
+                    "structure; tokenizing the canonical rendering of any tree over valid identifiers yields its canonical token list, which "
+                    "derives (hence parses back to) the tree, so print-then-parse is the identity and rendering is injective. Correspondence: stored "
                     "fields of all nodes of all small trees vs the independent renderer; round-trip oracle on constructed, parsed and "
                     "preprocessed trees.",
             "note": _FRONT_NOTE, "technique": "Lean 4 proof (structural induction) + differential correspondence check"},
